@@ -6,3 +6,4 @@ pub mod pool;
 pub mod chan;
 pub mod mem;
 pub mod dynf;
+pub mod cache;
